@@ -575,10 +575,21 @@ func (p *Pool) SparsePlans(t *vk.T, ops []opcat.Op, perInput, perHuge, first int
 			k = perHuge
 		}
 		var chosen []opcat.Op
-		if len(rewrite) > 0 && k > 0 {
+		if in.Tags["huge"] {
+			// the whole-document rewrites only, the plain one first (pdfcpu's optimiser takes a multiple of the
+			// time of a plain write for a document >= 2^24)
+			for _, name := range []string{"WriteContextFile", "OptimizeFile"} {
+				for _, op := range rewrite {
+					if op.Name == name && len(chosen) < k {
+						chosen = append(chosen, op)
+					}
+				}
+			}
+			k = len(chosen)
+		} else if len(rewrite) > 0 && k > 0 {
 			chosen = append(chosen, rewrite[(si+seedMod(t, len(rewrite)))%len(rewrite)])
 		}
-		if len(incr) > 0 && k > 1 {
+		if len(incr) > 0 && k > 1 && !in.Tags["huge"] {
 			chosen = append(chosen, incr[rng.IntN(len(incr))])
 		}
 		for _, j := range rng.Perm(len(eligible)) {
